@@ -3,11 +3,13 @@
   {"fatal": msg} means the driver could not interpret the line (never a model verdict).
 -/
 import Driver.C17
+import Driver.C09
 open Lean CR.Drv
 
 def dispatch (prop op : String) (a : Json) : P Json :=
   match prop with
   | "C17" => C17.handle op a
+  | "C09" => C09.handle op a
   | _ => throw s!"unknown property {prop}"
 
 def handleLine (line : String) : String :=
